@@ -341,8 +341,8 @@ class Summaries:
             # interpret the closure once on a generic item of the sequence (its construction sites and effects are facts)
             item = mk("item_of", a[0])
             r = I.apply_fn(a[1], [item], ctx.e, ctx.env, ctx.fr)
-            if r is not None and a[1].op == "closure":
-                return mk("seq_map_t", item, r[0], a[0])
+            if r is not None and a[1].op in ("closure", "fnref") and not (r[0].op == "apply"):
+                return mk("seq_map_t", item, r[0], a[0])      # a closure or a named function applied to the generic item
             return mk("seq_map", a[1], a[0])
         if tp == "core::iter::once":
             return mk("array", a[0])
@@ -576,8 +576,8 @@ class Summaries:
         if tp in ("core::cmp::Ord::cmp", "core::cmp::PartialOrd::partial_cmp") and "core::array" in key:
             v = mk("lex_cmp", a[0], a[1])
             return v if name == "cmp" else variant("Some", v)
-        if tp == "core::cmp::PartialOrd::ge" and s0[0] == "bigint":
-            return Tm.cmp("ge", a[0], a[1])
+        if tp in ("core::cmp::PartialOrd::ge", "core::cmp::PartialOrd::gt", "core::cmp::PartialOrd::le", "core::cmp::PartialOrd::lt") and s0[0] == "bigint":
+            return Tm.cmp(name, a[0], a[1])
         if tp == "core::hash::Hash::hash" and "core::array" in key:
             ctx.effect("hash_write", a[0])
             return UNIT
